@@ -74,7 +74,16 @@ def lin_case(ctx, S, a, b, m, tag):
     case = {"scale": "linear", "domain": [a, b], "m": m}
     try:
         prev = _REUSE["lin"]
-        s = prev.domain([a, b]) if (prev is not None and hash((a, b)) % 4 == 0) else S.LinearScale().domain([a, b])
+        mode = hash((a, b)) % 5 if prev is not None else 4
+        if mode == 0:
+            s = prev.domain([a, b])
+        elif mode == 1:
+            # two live scales related by copy() hold different domains; the other one is asked for the same count first
+            s = prev.copy().domain([a, b])
+            list(prev.ticks(m)) if m is not None else list(prev.ticks())
+            ctx.path("linear.copy-sibling-asked-first")
+        else:
+            s = S.LinearScale().domain([a, b])
         _REUSE["lin"] = s
         s.nice(m) if m is not None else s.nice()
         a2, b2 = s.domain()
@@ -100,9 +109,23 @@ def time_case(ctx, S, a, b, m, tag):
     stratum = "time+calendar-edge" if ("edge" in tag or "month-end" in tag) else "time"
     try:
         prev = _REUSE["time"]
-        s = prev.domain([a, b]) if (prev is not None and hash((a, b)) % 4 == 0) else S.TimeScale().domain([a, b])
+        mode = hash((a, b)) % 5 if prev is not None else 4
+        if mode == 0:
+            s = prev.domain([a, b])
+        elif mode == 1:
+            s = prev.copy().domain([a, b])
+        else:
+            s = S.TimeScale().domain([a, b])
         _REUSE["time"] = s
-        before = s.ticks(m) if m is not None else s.ticks()
+        if mode == 1:
+            # two live scales related by copy() hold different domains; the other one is asked for the same count first, and
+            # the ticks of the original domain come from an unrelated scale
+            u = S.TimeScale().domain([a, b])
+            before = u.ticks(m) if m is not None else u.ticks()
+            prev.ticks(m) if m is not None else prev.ticks()
+            ctx.path("time.copy-sibling-asked-first")
+        else:
+            before = s.ticks(m) if m is not None else s.ticks()
         s.nice(m) if m is not None else s.nice()
         a2, b2 = s.domain()
     except Exception as e:
